@@ -39,9 +39,18 @@ def Oracle.op (o : Oracle) (w : Nat) (a b : Int) : Int :=
     | none => 0
 
 def Oracle.fn (o : Oracle) (w : Nat) (args : List Int) : Int :=
-  match o.fns.find? (fun e => e.1 == w && e.2.1 == args) with
-  | some e => e.2.2
-  | none => 0
+  match o.ops with
+  | none =>
+    -- arithmetic mode: the user functions of the harness (`USER_FUNCS` in harness/props/c14.py)
+    match w, args with
+    | 1, [a] => a * 2 + 1
+    | 2, [a, b] => a * 3 - b
+    | 3, [a, b, c] => a + b * c
+    | _, _ => 0
+  | some _ =>
+    match o.fns.find? (fun e => e.1 == w && e.2.1 == args) with
+    | some e => e.2.2
+    | none => 0
 
 def Oracle.interp (o : Oracle) : Interp Nat Int :=
   { opf := o.op, fnf := o.fn, negf := fun a => match o.ops with | none => -a | some _ => o.op 6 a 0 }
@@ -283,7 +292,7 @@ def evalFamily (w : World) (pyout : Sexp) (withStrides : Bool) : String :=
           | .scalar _ => "scalar"
           | .arr a => if (valZeros v).any id then "bcast-result"
                       else if a.shape.any (· == 0) then "empty" else "dense"
-      driverResult impl ok implok (!constOnly) br
+      driverResult impl ok implok (!constOnly && refsOk (fuelFor w.tbl) w.tbl w.target) br
 
 /-! ### histories -/
 
